@@ -87,14 +87,19 @@ def scenario(seed):
         rec["match"] = match
         rec["matchKey"] = kname(ini_pts[mk][0], 5)
         rec["mode"] = mode
-        rec.update(exc="", out=[], restOk=True, iniUntouched=True)
+        rec.update(exc="", out=[], outLive=[], restOk=True, iniUntouched=True)
         sha0 = hashlib.sha256((root / "ini.tar").read_bytes()).hexdigest()
+        live = []
         try:
             with EKO.edit(root / "ini.tar") as ei, EKO.read(root / "fin.tar") as ef:
                 if mode == "path":
                     utils.ekos_product(ei, ef, path=root / "res.tar")
                 else:
                     utils.ekos_product(ei, ef)
+                    # what the live object answers right after the product (no reload)
+                    for ep in list(ei):
+                        o = ei[ep]
+                        live.append((ep, o.operator.copy(), None if o.error is None else o.error.copy()))
                 if mode == "path":
                     raise _Abort()   # leave the initial EKO without closing: nothing may have been written
         except _Abort:
@@ -104,9 +109,16 @@ def scenario(seed):
         if not rec["exc"]:
             if mode == "path":
                 rec["iniUntouched"] = hashlib.sha256((root / "ini.tar").read_bytes()).hexdigest() == sha0
+            from eko.io.items import Operator as _Op
+
             with EKO.read(root / ("res.tar" if mode == "path" else "ini.tar")) as er:
-                for ep in er:
-                    o = er[ep]
+                stored = [(ep, er[ep]) for ep in er]
+            # in-place: the live answers are judged like the stored ones (suffix "~live" is stripped)
+            items = stored + [(ep, _Op(a, b)) for ep, a, b in live]
+            nst = len(stored)
+            rec["outLive"] = []
+            for idx, (ep, o) in enumerate(items):
+                if True:
                     v, full = block(o.operator)
                     rest = full.copy()
                     rest[:2, :2] = np.eye(2)
@@ -122,7 +134,7 @@ def scenario(seed):
                     for (m2, nf), name in key.items():
                         if m2 == float(ep[0]) and nf == ep[1]:
                             k = name
-                    rec["out"].append({"k": k or "unknown", "val": v, "err": e2, "hasErr": o.error is not None})
+                    (rec["out"] if idx < nst else rec["outLive"]).append({"k": k or "unknown", "val": v, "err": e2, "hasErr": o.error is not None})
     return rec
 
 
